@@ -221,6 +221,23 @@ def verdict (t : Transition) : String :=
   | some v => v
   | none => first
 
+/-- C12 on one command: the bytes the connection loop would write are exactly one well-formed RESP value
+    (`-Error <text>\r\n` for a handler error), and the handler does not panic (no `recover` in the
+    server: a panic in a connection goroutine ends the process) -/
+def wireVerdict (t : Transition) : String × String :=
+  let name := String.fromUTF8! (ByteArray.mk (toLower (t.cmd.headD [])).toArray)
+  match t.obs with
+  | .panic => ("rej:panic", s!"{name}-panic")
+  | .err msg => if msg.any (fun c => c == 13 || c == 10) then ("rej:malformed", "error-reply-carries-crlf") else ("adm", "-")
+  | .ok bs =>
+    if bs.isEmpty then ("adm", "-") else
+    match parseReply bs with
+    | some _ => ("adm", "-")
+    | none =>
+      if bs == b "*0" then ("rej:malformed", "empty-array-without-terminator")
+      else if bs.head? == some 43 then ("rej:malformed", "simple-string-reply-carries-crlf")
+      else ("rej:malformed", s!"{name}-malformed-reply")
+
 partial def loop (h : IO.FS.Stream) (out : IO.FS.Stream) : IO Unit := do
   let line ← h.getLine
   if line.isEmpty then return ()
@@ -228,6 +245,9 @@ partial def loop (h : IO.FS.Stream) (out : IO.FS.Stream) : IO Unit := do
   if line.isEmpty then loop h out else
   if line.startsWith "Z " then
     out.putStrLn (zVerdict ((line.splitOn " ").filter (· ≠ "")))
+    loop h out
+  else if line.startsWith "W " then
+    out.putStrLn (wVerdict ((line.splitOn " ").filter (· ≠ "")))
     loop h out
   else if line.startsWith "A " then
     out.putStrLn (aVerdict ((line.splitOn " ").filter (· ≠ "")))
@@ -240,7 +260,7 @@ partial def loop (h : IO.FS.Stream) (out : IO.FS.Stream) : IO Unit := do
   else
   match parseLine line with
   | .error e => out.putStrLn s!"? BAD {e}"
-  | .ok t => out.putStrLn s!"{t.seq} {verdict t} ## kv={specKvVerdict t} cls={(Known.classifyAll t.ctx t.pre t.cmd).getD "-"} mcls={(Known.classifyMem t.ctx t.pre t.cmd).getD "-"} pcls={(Known.classifyPure t.ctx t.pre t.cmd).getD "-"} pure={pureVerdict t} mem={memVerdict t} iso={isoVerdict t} dl={hasDeadline t} shape={shapeOf t}"
+  | .ok t => out.putStrLn s!"{t.seq} {verdict t} ## kv={specKvVerdict t} cls={(Known.classifyAll t.ctx t.pre t.cmd).getD "-"} mcls={(Known.classifyMem t.ctx t.pre t.cmd).getD "-"} pcls={(Known.classifyPure t.ctx t.pre t.cmd).getD "-"} pure={pureVerdict t} mem={memVerdict t} iso={isoVerdict t} dl={hasDeadline t} shape={shapeOf t} wire={(wireVerdict t).1} wcls={(wireVerdict t).2}"
   loop h out
 
 def main : IO Unit := do
